@@ -109,6 +109,7 @@ Definition try_from_reader_count (shim : bool) (c : cfg) (t : ty) (st : rstate) 
       match rd_exact (sched_reader shim) 1 s1 with
       | Err UnexpectedEof _ => (Ok v, Some (pulled (data st) s1))
       | Ok (_, s2) => (Err InvalidData MNotAllBytesRead, Some (pulled (data st) s2))
+      | Panic w => (Panic w, None)
       | _ => (Err InvalidData MNotAllBytesRead, None)
       end
   | Err k m => (Err k m, None)
